@@ -36,6 +36,14 @@ CHECKS = [
        "Generated-input search over trees (root moved away from the origin, root at any row, up to 300/2000 nodes) x Translate / TranslateOrigin / Scale / Rotate / RotateX/Y/Z / generic invertible AffineTransform x centre mode x instance/classmethod form; oracle = float64 reference map c + M(x-c) + b (Rodrigues, right-handed), fixed centre, pairwise distances under rotation, inverse restores, id/pid/type/r/extras bit-identical, input untouched; matrix builders against reference 4x4 matrices and quarter-turn handedness. Exploration, not proof.",
        "Trusted: numpy float64 linear algebra as the reference; tolerance 1e-4 relative to the coordinate scale (float32 storage); rotation axes are unit vectors.",
        "property-based testing (Hypothesis): float64 reference-model oracle + inverse/metamorphic relations"),
+    _c("C13",
+       "Generated-input search over radii / heights / distances log-uniform in [0.02, 50] with constructed tangent, nested, concentric, equal-radius, cylinder, h = r, cone-inside-sphere and needle configurations, any axis direction and centre offset, sphere on either end of the frustum; oracle = exact piecewise-cubic revolution integral of min / max squared-radius profiles (no case analysis shared with the code) for sphere, cap, frustum, sphere-sphere and sphere-frustum intersection and union. Exploration, not proof.",
+       "Trusted: float64 quadrature-free integration in vlib/models.py (breakpoints from quadratic roots); tolerance 1e-5*V + 1e-5*L^2 covering the library's absolute eps = 1e-6.",
+       "property-based testing (Hypothesis): independent exact reference (solid-of-revolution integral)"),
+    _c("C14",
+       "Generated-input search over collinear trees (chains; roots with two opposite arms) with spacings from exactly max(r) upward so that about half of the neighbouring sphere pairs overlap, any direction and offset, accuracy levels 3-9 and the named levels, plus arbitrary trees at levels 1 and 2; oracle = exact revolution integral of the union profile of all spheres and frusta along the line, all analytic levels agree, extract_feature('volume') equals it; levels 1 / 2 against float64 sums. Exploration, not proof.",
+       "Trusted: the revolution-integral reference (vlib/models.py); rtol 1e-4 for the library's float32 arithmetic; Monte-Carlo level 10 excluded.",
+       "property-based testing (Hypothesis): independent exact reference (solid-of-revolution integral) + cross-level agreement"),
     {"id": "C02",
      "text": "Generated-input search: SWC texts assembled from the line grammar with exactly known rational values, read through every source kind/encoding/option; oracle = the generator's own table (exact equality) for valid texts, 'must raise' for texts with injected malformed lines or an undecodable byte, tag-based isomorphism for sort_nodes. No counterexample among the generated cases; this is exploration, not proof.",
      "ref": "DESIGN.md section 3 C02",
